@@ -6,6 +6,7 @@ import (
 	"fmt"
 	"go/types"
 	"io"
+	"math/big"
 	"reflect"
 	"sort"
 	"strconv"
@@ -355,6 +356,22 @@ func (in *Interp) jsonEqual(a, b *JNode) *sym.Term {
 			return in.strEq(a.Text, b.Text)
 		}
 		if (a.Kind == JNumText || a.Kind == JNumVal) && (b.Kind == JNumText || b.Kind == JNumVal) {
+			// a concrete literal against a concrete integer: compared as exact rationals
+			t, v := a, b
+			if t.Kind != JNumText {
+				t, v = b, a
+			}
+			if t.Text.IsConc() && v.Val.IsConst() {
+				if r, ok := new(big.Rat).SetString(t.Text.S); ok {
+					var iv *big.Int
+					if v.Signed {
+						iv = big.NewInt(v.Val.Int())
+					} else {
+						iv = new(big.Int).SetUint64(v.Val.Val)
+					}
+					return c.Bool(r.Cmp(new(big.Rat).SetInt(iv)) == 0)
+				}
+			}
 			in.unsupported("comparison of a JSON number literal with a marshaled integer")
 		}
 		return c.F
@@ -1411,6 +1428,19 @@ func (in *Interp) jsonToAny(n *JNode) Value {
 	case JBool:
 		return Iface{T: types.Typ[types.Bool], V: n.B}
 	case JNumText, JNumVal:
+		// a concrete number is the float64 encoding/json stores; a symbolic one stays boxed
+		// (the library does not compute with decoded numbers)
+		if n.Kind == JNumVal && n.Val.IsConst() {
+			if n.Signed {
+				return Iface{T: types.Typ[types.Float64], V: float64(n.Val.Int())}
+			}
+			return Iface{T: types.Typ[types.Float64], V: float64(n.Val.Val)}
+		}
+		if n.Kind == JNumText && n.Text.IsConc() {
+			if f, err := strconv.ParseFloat(n.Text.S, 64); err == nil {
+				return Iface{T: types.Typ[types.Float64], V: f}
+			}
+		}
 		return Iface{T: types.Typ[types.Float64], V: JNumBox{n}}
 	case JString:
 		if n.Flavor != flPlain {
